@@ -523,9 +523,13 @@ impl SeqModel for M {
                 "wrong-value"
             }
         };
+        // The event "yields a price" for the instrument when it is a priced event newer than everything
+        // the instrument has seen, or - whatever its timestamp relative to the fills - when it moved the
+        // price the instrument reports (the data state accepted it).
+        let moved_price = price_now.is_some() && price_now != price_before;
         match (priced, definitely_new, price_now) {
             // (a) a new price for i: the estimate must be at the instrument's current price
-            (Some(_), true, Some(x)) => {
+            (pr, dn, Some(x)) if (pr.is_some() && dn) || moved_price => {
                 self.n.priced_new_checked.fetch_add(1, Ordering::Relaxed);
                 mon.allowed = vec![Src::Price(x)];
                 if Some(got) != before_i {
